@@ -59,7 +59,7 @@ pub fn real<F: FnOnce() -> pdf::error::Result<Vec<u8>>>(f: F) -> String {
 
 fn class(s: &str) -> &str {
     match s.split(' ').next().unwrap_or("") {
-        c @ ("ok" | "err" | "panic" | "oof" | "bad-request" | "none" | "0" | "1") => c,
+        c @ ("ok" | "err" | "panic" | "oof" | "abort" | "timeout" | "bad-request" | "none" | "0" | "1") => c,
         _ => "value",
     }
 }
@@ -389,6 +389,87 @@ fn real_stream_generated(data: &[u8], fs: &[F]) -> String {
         let s = PdfStreamObj::<()>::from_compressed((), data.to_vec(), filters);
         s.data(&NoResolve).map(|d| d.to_vec())
     })
+}
+
+fn parse_p(v: &[&str]) -> Option<P> {
+    if v.len() != 5 { return None; }
+    Some(P { predictor: v[0].parse().ok()?, colors: v[1].parse().ok()?, bpc: v[2].parse().ok()?, columns: v[3].parse().ok()?, early: v[4].parse().ok()? })
+}
+
+fn parse_filters(s: &str) -> Option<Vec<F>> {
+    if s == "-" { return Some(vec![]); }
+    s.split(',').map(|t| {
+        let v: Vec<&str> = t.split(':').collect();
+        match v[0] {
+            "hex" => Some(F::Hex),
+            "a85" => Some(F::A85),
+            "rl" => Some(F::Rl),
+            "fl" => parse_p(&v[1..]).map(|p| F::Flate(p, Framing::Zlib)),
+            "lzw" => parse_p(&v[1..]).map(F::Lzw),
+            _ => None,
+        }
+    }).collect()
+}
+
+/// Child side of `eval_isolated`: evaluate the cases, one result line per case, flushed as it goes.
+fn child_main(r: &Value) {
+    use std::io::Write;
+    let path = r["results"].as_str().expect("results path");
+    let mut out = std::fs::File::create(path).expect("results file");
+    for c in r["cases"].as_array().expect("cases") {
+        let fs = parse_filters(c["f"].as_str().unwrap_or("")).expect("filters");
+        let d = crate::driver::unhex(c["d"].as_str().unwrap_or("-")).expect("data");
+        let res = real_chain(&d, &fs);
+        writeln!(out, "{}", res).unwrap();
+        out.flush().unwrap();
+    }
+}
+
+/// Decode `(filters, data)` cases with the real library in a child process: hostile `/DecodeParms` may make
+/// a broken tree abort (allocation failure) or hang, which must not take the harness down. A case that
+/// kills the child is reported as `abort`, one that exceeds the time limit as `timeout`.
+pub fn eval_isolated(cases: &[(Vec<F>, Vec<u8>)]) -> Vec<String> {
+    use std::sync::atomic::{AtomicU64, Ordering};
+    static COUNTER: AtomicU64 = AtomicU64::new(0);
+    let mut results: Vec<String> = vec![];
+    let exe = std::env::current_exe().expect("current_exe");
+    while results.len() < cases.len() {
+        let rest = &cases[results.len()..];
+        let id = COUNTER.fetch_add(1, Ordering::SeqCst);
+        let base = std::env::temp_dir().join(format!("pdfverif-c05-{}-{}", std::process::id(), id));
+        let inp = base.with_extension("in.json");
+        let res = base.with_extension("res.txt");
+        let out = base.with_extension("out.json");
+        let js = json!({"stream": "c05.child", "results": res.to_str().unwrap(),
+            "cases": rest.iter().map(|(fs, d)| json!({"f": filters_proto(fs), "d": hex(d)})).collect::<Vec<_>>()});
+        std::fs::write(&inp, serde_json::to_string(&js).unwrap()).expect("write child input");
+        let mut child = std::process::Command::new(&exe)
+            .args(["C05", "--tier", "quick", "--seed", "0", "--driver", "-", "--out", out.to_str().unwrap(), "--replay", inp.to_str().unwrap()])
+            .stdout(std::process::Stdio::null()).stderr(std::process::Stdio::null())
+            .spawn().expect("spawn child");
+        let t0 = std::time::Instant::now();
+        let limit = std::time::Duration::from_secs(60 + rest.len() as u64 / 50);
+        let mut timed_out = false;
+        loop {
+            match child.try_wait() {
+                Ok(Some(_)) => break,
+                Ok(None) => {
+                    if t0.elapsed() > limit { let _ = child.kill(); let _ = child.wait(); timed_out = true; break; }
+                    std::thread::sleep(std::time::Duration::from_millis(5));
+                }
+                Err(_) => break,
+            }
+        }
+        let text = std::fs::read_to_string(&res).unwrap_or_default();
+        let lines: Vec<&str> = text.lines().collect();
+        let got = lines.len().min(rest.len());
+        results.extend(lines[..got].iter().map(|s| s.to_string()));
+        if got < rest.len() {
+            results.push(if timed_out { "timeout".into() } else { "abort".into() });
+        }
+        for f in [&inp, &res, &out] { let _ = std::fs::remove_file(f); }
+    }
+    results
 }
 
 fn damage(rng: &mut Rng, d: &[u8]) -> Vec<u8> {
@@ -735,14 +816,25 @@ fn hostile_params(rng: &mut Rng) -> P {
 fn unpredict_params(driver: &Driver, seed: u64, n: u64) -> Stream {
     let mut st = Stream::new("c05.unpredict.params", false);
     let mut b = Batch::new();
+    let mut reqs = vec![];
+    let mut cases = vec![];
     for case in 0..n {
         let mut rng = Rng::derive(seed, "c05.unpredict.params", case);
         let p = hostile_params(&mut rng);
         let len = rng.usize(60);
         let mut data = rng.bytes(len);
         if rng.chance(1, 2) { for x in data.iter_mut() { if rng.chance(1, 3) { *x = rng.below(6) as u8; } } }
-        let imp = real_unpredict(&p, &data, rng.chance(1, 3));
-        b.push(format!("c05.unpredict {} {} {} {} {}", p.predictor, p.colors, p.bpc, p.columns, hex(&data)), imp, true);
+        // the real `unpredict` behind `flate_decode` / `lzw_decode`, in a child process (hostile parameters)
+        if rng.chance(1, 3) {
+            cases.push((vec![F::Lzw(p.clone())], lzw_encode(&data, p.early != 0, None)));
+        } else {
+            cases.push((vec![F::Flate(p.clone(), Framing::Zlib)], zlib_level(&data, 1)));
+        }
+        reqs.push(format!("c05.unpredict {} {} {} {} {}", p.predictor, p.colors, p.bpc, p.columns, hex(&data)));
+    }
+    let imps = eval_isolated(&cases);
+    for (rq, imp) in reqs.into_iter().zip(imps.into_iter()) {
+        b.push(rq, imp, true);
     }
     b.finish(driver, &mut st);
     st
@@ -989,10 +1081,11 @@ fn decode_oracle(seed: u64, from: u64, to: u64, max_payload: usize, only: Option
 
 fn nopanic_oracle(seed: u64, n: u64) -> Oracle {
     let mut or = Oracle::new("c05.nopanic");
+    let mut all: Vec<(u64, Vec<F>, Vec<u8>, bool)> = vec![];
     for case in 0..n {
         let mut rng = Rng::derive(seed, "c05.nopanic", case);
         let e = gen_chain(&mut rng, 200, 3);
-        let (data, filters): (Vec<u8>, Vec<F>) = match rng.below(4) {
+        let (data, filters, hostile): (Vec<u8>, Vec<F>, bool) = match rng.below(4) {
             0 => {
                 // hostile parameters on well-formed data
                 let fs = e.filters.iter().map(|f| match f {
@@ -1000,33 +1093,39 @@ fn nopanic_oracle(seed: u64, n: u64) -> Oracle {
                     F::Lzw(_) => F::Lzw(hostile_params(&mut rng)),
                     f => f.clone(),
                 }).collect();
-                (e.data.clone(), fs)
+                (e.data.clone(), fs, true)
             }
             1 => {
                 // random bytes into a random single filter
                 let n = rng.usize(80);
                 let fs = vec![match rng.below(5) { 0 => F::Hex, 1 => F::A85, 2 => F::Rl, 3 => F::Flate(hostile_params(&mut rng), Framing::Zlib), _ => F::Lzw(hostile_params(&mut rng)) }];
-                (rng.bytes(n), fs)
+                (rng.bytes(n), fs, true)
             }
             _ => {
                 let mut d = damage(&mut rng, &e.data);
                 if rng.chance(1, 3) { d = damage(&mut rng, &d); }
-                (d, e.filters.clone())
+                (d, e.filters.clone(), false)
             }
         };
-        let got = real_chain(&data, &filters);
+        all.push((case, filters, data, hostile));
+    }
+    // hostile parameters run in a child process (a broken tree may abort in the allocator or hang)
+    let iso: Vec<(Vec<F>, Vec<u8>)> = all.iter().filter(|c| c.3).map(|c| (c.1.clone(), c.2.clone())).collect();
+    let mut iso_res = eval_isolated(&iso).into_iter();
+    for (case, filters, data, hostile) in all {
+        let got = if hostile { iso_res.next().unwrap_or_else(|| "abort".into()) } else { real_chain(&data, &filters) };
         or.count(&format!("outcome={}", class(&got)));
         or.case(&format!("{}|{}", filters_proto(&filters), hex(&data[..data.len().min(48)])), true, || json!({"filters": filters_proto(&filters), "data_len": data.len()}));
-        if got == "panic" {
+        if got == "panic" || got == "abort" || got == "timeout" {
             let kinds: Vec<String> = filters.iter().map(|f| f.kind()).collect();
-            or.fail(&format!("panic:{}", kinds.join(",")), &format!("panic while decoding {} damaged bytes through [{}]", data.len(), kinds.join(", ")),
-                json!({"stream": "c05.nopanic", "seed": seed, "case": case, "filters": filters.iter().map(|f| format!("{:?}", f)).collect::<Vec<_>>(), "data_hex": hex(&data)}));
+            or.fail(&format!("{}:{}", got, kinds.join(",")), &format!("{} while decoding {} damaged bytes through [{}] (parameters {})", got, data.len(), kinds.join(", "), filters_proto(&filters)),
+                json!({"stream": "c05.nopanic", "seed": seed, "case": case, "filters": filters_proto(&filters), "data_hex": hex(&data)}));
         }
     }
     or
 }
 
-/// regression witnesses of the repaired defects: (name, filters, data, expected)
+/// regression witnesses of the repaired defects: (name, filters, data, expected; None = error or value, no panic)
 fn witnesses() -> Vec<(&'static str, Vec<F>, Vec<u8>, Option<Vec<u8>>)> {
     let z = |d: &[u8]| zlib_level(d, 6);
     let p = |predictor, colors, bpc, columns| P { predictor, colors, bpc, columns, early: 1 };
@@ -1052,16 +1151,19 @@ fn witnesses() -> Vec<(&'static str, Vec<F>, Vec<u8>, Option<Vec<u8>>)> {
 
 fn witness_oracle() -> Oracle {
     let mut or = Oracle::new("c05.witness");
-    for (name, fs, data, expect) in witnesses() {
-        let got = real_chain(&data, &fs);
+    let ws = witnesses();
+    let results = eval_isolated(&ws.iter().map(|w| (w.1.clone(), w.2.clone())).collect::<Vec<_>>());
+    for ((name, _fs, data, expect), got) in ws.into_iter().zip(results.into_iter()) {
+        // conforming input: the original bytes; damaged input or invalid parameters: the property asks for
+        // "an error or a value" (the repaired code returns an error for all of them, a value would do)
         let ok = match &expect {
             Some(v) => got == format!("ok {}", hex(v)),
-            None => got == "err",
+            None => got == "err" || got.starts_with("ok"),
         };
         or.case(name, true, || json!({"witness": name, "got": trunc(&got)}));
         or.count(if ok { "holds" } else { "fails" });
         if !ok {
-            or.fail(&format!("witness:{}", name.split(' ').next().unwrap()), &format!("regression witness '{}': expected {} got {}", name, expect.as_ref().map(|v| format!("ok {}", hex(v))).unwrap_or_else(|| "err".into()), trunc(&got)),
+            or.fail(&format!("witness:{}", name.split(' ').next().unwrap()), &format!("regression witness '{}': expected {} got {}", name, expect.as_ref().map(|v| format!("ok {}", hex(v))).unwrap_or_else(|| "an error or a value".into()), trunc(&got)),
                 json!({"stream": "c05.witness", "witness": name, "data_hex": hex(&data)}));
         }
     }
@@ -1198,6 +1300,10 @@ pub fn run(driver: &Driver, seed: u64, thorough: bool, replay: Option<&Value>) -
         panic!("reference codec self-test failed (broken oracle, not a finding): {}", e);
     }
     if let Some(r) = replay {
+        if r["stream"].as_str() == Some("c05.child") {
+            child_main(r);
+            return rep;
+        }
         let seed = r["seed"].as_u64().unwrap_or(seed);
         let case = r["case"].as_u64().unwrap_or(0);
         match r["stream"].as_str().unwrap_or("") {
